@@ -274,14 +274,14 @@ PROPS['C09'] = {
 }
 
 PROPS['C04'] = {
-    'level': 'other',
-    'technique': 'Lean 4 model of the whole certificate decoder on octets (Model/CertDer.lean: Cert::decode, TbsCert::from_constructed with all extension readers, names, keys, bcder skip machine) compared with the library on accept/reject and every field; Lean 4 guard lemmas for the repository-specific unwrap()/panic!/arithmetic sites (manifest skip/take parity so FileListIter and iter_uris cannot fail, encode_verify never reaches its panic!, asn_count total and saturating, TLV reader partitions its input) + structure-aware differential fuzzing of all 19 decoding entry points (strict and relaxed) with every accessor and the re-encoding, under catch_unwind, a hang watchdog and a counting allocator, oracle evaluated by the Lean driver',
-    'claim': 'Not a proof of the whole statement: panic-freedom and resource use of bcder, quick-xml and aws-lc on arbitrary octets cannot be carried by the model. Since session 9 five decoders (certificate, CRL, signed object incl. ROA/ASPA/manifest, identity certificate, signed protocol message; strict mode) are total Lean functions on octets compared with the library on accept/reject and every field, and for every octet string they accept the later unwrap() sites are proved unreachable: Crl::contains / iter after Crl::decode, verify_not_revoked after SignedMessage::decode, SignedAttrs::encode_verify after SignedObject / SignedMessage::decode; the model of bcder skip_opt (capture_one, skip_one, skip_all) is proved to leave a proper suffix of its input (at least one header consumed) and to be independent of its loop counter. Proved (Lean 4, on the models tied to the code by C14/C02/C03): a decoded manifest can always be iterated and resolved (the two unwrap() sites), SignedAttrs::encode_verify cannot reach its panic! for any decoded object, AsBlocks::asn_count is total and saturating, every value read by the TLV layer lies inside its input (strictly shorter nested inputs). Explored: every entry point x {valid objects of every type from an independent encoder, from the library builders and from test-data} x 16 structure-preserving mutations at TLV boundaries (tag, constructed bit, length +-1/zero/huge/indefinite/non-minimal, value bits, fill, truncation, duplication, deletion, splice from other objects) + raw damage + random octets + nesting to depth 2000, each followed by every accessor/iterator and the re-encoding; peak heap must stay below 64*len + 1 MiB (counted by the allocator, machine-independent), hangs caught by the watchdog.',
-    'note': 'One finding is recorded as known (see KNOWN_FINDINGS.txt): re-encoding any value decoded in relaxed mode panics inside bcder (Mode::Der requested for Mode::Ber captures). Time is bounded only by the generous watchdog, never by a wall-clock threshold.',
+    'level': 'proof',
+    'technique': 'Lean 4 octet-level models of every decoding entry point of the statement (certificate, CRL, manifest / ROA / ASPA / generic signed object, RTA, TAL, public key, both CSR types, identity certificate, signed protocol message; relaxed mode through a mode-parametrized copy of the model generated from the DER model\'s text and proved equal to it at ber = false) as total functions, theorems that whatever a decoder accepts satisfies what the later unwrap()/panic! sites of accessors and iterators need, and a correspondence run that compares model and library on accept/reject and every field for structure-aware mutants of every object kind, under catch_unwind, a hang watchdog and a counting allocator',
+    'claim': 'Lean 4 proofs on the models: every decoder model is a total function (value or refusal for every octet string, loops bounded by the input length; the skip machine leaves a proper suffix and is independent of its loop counter); for every octet string a decoder accepts the later unwrap()/panic! sites are unreachable: manifest FileListIter / iter_uris, ROA / ASPA / CRL iterators (capture-iterate parity), Crl::contains after Crl::decode, verify_not_revoked after SignedMessage::decode, SignedAttrs::encode_verify after a strict or relaxed decode (relaxed_encode_verify_cannot_panic), asn_count; RTA: the three resource sets are canonical chains and every embedded CRL went through the counting pass (rta_octets_accessors_cannot_fail); CSR: the unwrapping accessors have their values (csr_octets_profile); TAL: every URI is valid for its scheme, the key decodes, prefer_https only reorders (tal_octets_spec); the strict decoders are the ber = false instance of the mode-parametrized model (strict_is_the_der_instance, 56 generated equalities + readers_at_der). Partial: that the LIBRARY neither panics nor exceeds the resource bound on the same octets is observed on every case (catch_unwind, watchdog, allocator), not proved - bcder, base64 and aws-lc internals are not modelled beyond what the readers above say; the re-encoding of relaxed-mode values is a recorded finding.',
+    'note': 'Models: Model/CertDer, CmsDer, CrlDer, SigMsgDer, CsrDer, RtaDer, Tal, Ber + Gen/BerModel (regenerated from the DER model text on every run, with Gen/BerEq: fooM false = foo for all 56 definitions). One finding is recorded as known (see KNOWN_FINDINGS.txt): re-encoding any value decoded in relaxed mode panics inside bcder (Mode::Der requested for Mode::Ber captures). Time is bounded only by the generous watchdog, never by a wall-clock threshold.',
     'shards': {'quick': 8, 'thorough': 16},
     'budget': {'quick': 900, 'thorough': 10800},
-    'rule': 'certd: 8 certificates (TA with notify, trimming CA, EE, ECDSA router, four from test-data) x (about 350 hand-made variations of every extension reader, the names, algorithm identifiers, validity, key and envelope + the systematic boundary contents + 300 (thorough 3000) tree-aware/raw mutants), each decoded by Cert::decode and by the Lean decoder CertDer.decodeCert, compared on accept/reject, 22 fields and the ten inspect_* verdicts. dec: 37 valid seed objects (certificates of every kind incl. router/ECDSA, public keys, ROA, ASPA, manifest, generic signed object, CRL, CSRs, identity certificates, signed messages, TAL; independent encoder + library builders + /repo/test-data) x 400 (thorough 4000) mutants each, every valid object through every other entry point, 40 (400) random inputs and 9 nesting bombs per entry point, indefinite and 4 GiB lengths, empty input, 400 (4000) TAL text mutations.',
-    'trusted_base': ['bcder / aws-lc / base64 internals (explored, not modelled)', 'the counting allocator and catch_unwind of the harness'],
+    'rule': 'per run about 34k (thorough 300k) decoder cases compared field by field with the models: certd 7.4k, cmsd 6.3k, crld 2.3k, idcd 1.1k, smsgd 2.6k, csrd 1.6k (both request types, 60 hand-made extension / attribute / envelope variations), keyd 0.9k, tald 0.3k (50 hand-made locators: comment lines, line ends, URI shapes, Base64 padding and unused bits), rtad 1.4k (five library-built attestations with 0-3 certificates, CRLs, 1-3 signers; 110 hand-made variations), relaxed mode cmsdr 4.5k + smsgdr 2.1k (every node of every seed object with every BER liberty it can take one at a time - indefinite length, over-long length, over-long end-of-contents, constructed strings flat and nested, other truth values, set unused bits, indefinite primitive -, random mixes at four rates, liberties on top of the hand-made strict variations, mutants). dec: 37 valid seed objects x 400 (thorough 4000) mutants each through all 19 entry points with every accessor and the re-encoding, every valid object through every other entry point, random inputs, nesting bombs, indefinite and 4 GiB lengths, empty input; peak heap below 64*len + 1 MiB, hangs caught by the watchdog.',
+    'trusted_base': ['bcder / aws-lc / base64 internals beyond the modelled readers (explored, not modelled)', 'the counting allocator and catch_unwind of the harness', 'tools/gen_ber_model.py (textual rewriting of the DER model; its output is checked by Lean and compared with the library)'],
     'assumptions': ['a stack overflow or abort would kill the harness process and is reported as a crashed shard'],
 }
 
